@@ -32,6 +32,13 @@ def view(x):
         x = x[0]
     if x == DATA:
         return (DATA, 0, DATA_LEN)
+    if isinstance(x, tuple) and len(x) == 2 and isinstance(x[1], str) and re.match(r"\.[01](\.\*)*$", x[1]) and isinstance(x[0], tuple) \
+            and len(x[0]) == 3 and isinstance(x[0][0], str) and re.search(r"split_at(_mut)?$", x[0][0]):
+        v = view(x[0][1])                       # the halves of data.split_at(mid)
+        if v is not None and v[0] == DATA and v[2] is not None:
+            mid = ("op:Add", v[1], x[0][2])
+            return (DATA, v[1], mid) if x[1].startswith(".0") else (DATA, mid, v[2])
+        return None
     if isinstance(x, tuple) and len(x) == 3 and isinstance(x[0], str) and (re.search(r"(^|::)index(_mut)?$", x[0]) or x[0] == "whole"):
         v = view(x[1])
         if v is None or v[0] != DATA:
@@ -185,34 +192,60 @@ def minus(a, b):
     return {k: v for k, v in out.items() if v != 0}
 
 
-def _len_of_base(t):
-    r = repr(t)
-    if "top:data" in r:
-        return {"L": 1}
-    if "dec.buffer" in r or "havoc:index_mut" in r or "havoc:copy_from_slice" in r:
-        return {"B": 1}
+def _abs_extent(t):
+    """(root, lo, hi): t denotes root[lo..hi] with root in {"data", "buffer"} and lo / hi linear forms over c, E, L, m, B -
+    through nested indexing and the halves of split_at(_mut); None when t is not such a view"""
+    while isinstance(t, tuple) and len(t) == 2 and isinstance(t[1], str) and t[1] in (".*", ".*.*"):
+        t = t[0]
+    if isinstance(t, tuple) and len(t) == 2 and t[0] == "&":
+        return _abs_extent(t[1])
+    if t == "top:data":
+        return "data", {}, {"L": 1}
+    if isinstance(t, str) and ("dec.buffer" in t or t.startswith("top:havoc:index_mut") or t.startswith("top:havoc:copy_from_slice")
+                               or t.startswith("top:havoc:clone_from_slice")):
+        return "buffer", {}, {"B": 1}
+    if isinstance(t, tuple) and len(t) == 2 and isinstance(t[1], str) and re.match(r"\.[01](\.\*)*$", t[1]) and isinstance(t[0], tuple) \
+            and len(t[0]) == 3 and isinstance(t[0][0], str) and re.search(r"split_at(_mut)?$", t[0][0]):
+        b = _abs_extent(t[0][1])
+        if b is None:
+            return None
+        mid = plus(b[1], named_lin(t[0][2]))
+        return (b[0], b[1], mid) if t[1].startswith(".0") else (b[0], mid, b[2])
+    if isinstance(t, tuple) and len(t) == 3 and isinstance(t[0], str) and t[0].endswith(("index", "index_mut")):
+        b = _abs_extent(t[1])
+        r = t[2]
+        if b is None or not isinstance(r, tuple):
+            return None
+        if r[0] == "Range":
+            return b[0], plus(b[1], named_lin(r[1])), plus(b[1], named_lin(r[2]))
+        if r[0] == "RangeTo":
+            return b[0], b[1], plus(b[1], named_lin(r[1]))
+        if r[0] == "RangeFrom":
+            return b[0], plus(b[1], named_lin(r[1])), b[2]
+        if r[0] == "RangeFull":
+            return b
     return None
+
+
+def plus(a, b):
+    out = dict(a)
+    for k, v in b.items():
+        out[k] = out.get(k, 0) + v
+    return {k: v for k, v in out.items() if v != 0}
 
 
 def _slice_extent(t):
-    """(lo, hi) linear forms of an index node (fn, base, range) relative to its base, plus len(base)"""
-    if isinstance(t, tuple) and len(t) == 2 and t[1] == ".*":
+    """(lo, hi, len of the immediate base) of an index node, as linear forms relative to the root (so nested slices of the
+    input are measured against the sub-slice they index, not against the whole input)"""
+    while isinstance(t, tuple) and len(t) == 2 and isinstance(t[1], str) and t[1] in (".*", ".*.*"):
         t = t[0]
-    if t == "top:data":
-        return {}, {"L": 1}, {"L": 1}          # the whole chunk
-    if not (isinstance(t, tuple) and len(t) == 3 and isinstance(t[0], str) and t[0].endswith(("index", "index_mut"))):
+    x = _abs_extent(t)
+    if x is None:
         return None
-    bl = _len_of_base(t[1])
-    r = t[2]
-    if bl is None or not isinstance(r, tuple):
-        return None
-    if r[0] == "Range":
-        return named_lin(r[1]), named_lin(r[2]), bl
-    if r[0] == "RangeTo":
-        return {}, named_lin(r[1]), bl
-    if r[0] == "RangeFrom":
-        return named_lin(r[1]), bl, bl
-    return None
+    if isinstance(t, tuple) and len(t) == 3 and isinstance(t[0], str) and t[0].endswith(("index", "index_mut")):
+        b = _abs_extent(t[1])
+        return x[1], x[2], b[2]
+    return x[1], x[2], x[2]
 
 
 def arith_obligations(t, out, depth=0):
@@ -317,6 +350,12 @@ def r16_4_invariant(ctx, prog, rule="R16.4"):
                     lo, hi, ln = ext
                     prove("%s: start <= end in %s" % (nm, show(args[1])[:60]), minus(hi, lo))
                     prove("%s: end <= len in %s" % (nm, show(args[1])[:60]), minus(ln, hi))
+                elif re.search(r"slice::<impl \[.*\]>::split_at(_mut)?$", e[1]) and len(args) == 2:
+                    bx = _abs_extent(args[0])
+                    if bx is None:
+                        failed.append("%s: unrecognised slice %s" % (nm, show(args[0])[:60]))
+                        continue
+                    prove("%s: mid <= len" % nm, minus(minus(bx[2], bx[1]), named_lin(args[1])))
                 elif re.search(r"copy_from_slice$|clone_from_slice$", e[1]):
                     d, s_ = _slice_extent(args[0]), _slice_extent(args[1])
                     if d is None or s_ is None:
